@@ -21,3 +21,4 @@ def run(ck):
     region.r7_14_running_extremes_independent(ck, P)
     deadcmp.r_range_test_after_narrowing(ck, P, 'C07-R15', floor=40)
     region.r6_12_clamped_boxes_revalidated(ck, P, 'C07-R16')
+    region.r7_17_translation_amount_unchanged(ck, P)
